@@ -439,6 +439,97 @@ def _desugar_match(tree):
     ast.fix_missing_locations(tree)
 
 
+def _flatten_mixins(modules, canon_classes):
+    """A new class (not one of the confirmed tree) that is the base of
+    exactly one class of the package, has no base itself and is mentioned
+    nowhere else (imports aside) is a mix-in that merely holds part of that
+    class: its members are moved into the subclass (those the subclass does
+    not define itself) and the base is dropped.  Globals the moved methods
+    read are imported into the subclass's module the way the mix-in's module
+    had them."""
+    from .deextract import (_free_globals, _module_bindings,
+                            _binds_otherwise, _after_imports)
+    done = []
+    cdefs = {}
+    for mod, tree in modules.items():
+        for c in tree.body:
+            if isinstance(c, ast.ClassDef):
+                cdefs.setdefault(c.name, []).append((mod, c))
+    for bname, lst in list(cdefs.items()):
+        if bname in canon_classes or len(lst) != 1:
+            continue
+        bmod, B = lst[0]
+        if B.bases or B.decorator_list or B.keywords:
+            continue
+        subs = [(m, c) for n_, l_ in cdefs.items() for m, c in l_
+                if any(ast.unparse(b).split('.')[-1] == bname
+                       for b in c.bases)]
+        if len(subs) != 1:
+            continue
+        cmod, C = subs[0]
+        # mentioned only in imports and in C's bases
+        uses = 0
+        for mod, tree in modules.items():
+            for n in ast.walk(tree):
+                if isinstance(n, ast.Name) and n.id == bname:
+                    uses += 1
+                elif isinstance(n, ast.Attribute) and n.attr == bname:
+                    uses += 1
+        if uses != 1:
+            continue
+        members = [m for m in B.body if isinstance(
+            m, (ast.FunctionDef, ast.Assign))]
+        if any(not isinstance(m, (ast.FunctionDef, ast.Assign, ast.Expr))
+               for m in B.body):
+            continue
+        own = {m.name for m in C.body if isinstance(m, ast.FunctionDef)} | {
+            t.id for m in C.body if isinstance(m, ast.Assign)
+            for t in m.targets if isinstance(t, ast.Name)}
+        home = _module_bindings(modules[bmod], bmod)
+        there = _module_bindings(modules[cmod], cmod)
+        free = set()
+        for m in members:
+            if isinstance(m, ast.FunctionDef):
+                free |= _free_globals(m)
+        ok = True
+        for nm in free:
+            if nm == C.name and cmod != bmod:
+                continue          # the subclass names itself
+            if home.get(nm) is None or (
+                    there.get(nm) is not None and
+                    home.get(nm) != there.get(nm)) or (
+                    there.get(nm) is None and _binds_otherwise(
+                        modules[cmod], nm)):
+                ok = False
+        if not ok:
+            continue
+        for nm in sorted(free):
+            if nm != C.name and there.get(nm) is None and \
+                    home.get(nm) is not None and cmod != bmod:
+                modules[cmod].body.insert(
+                    _after_imports(modules[cmod]),
+                    ast.parse(home[nm]).body[0])
+        moved = [m for m in members if not (
+            isinstance(m, ast.FunctionDef) and m.name in own)]
+        # after the docstring of C
+        at = 1 if (C.body and isinstance(C.body[0], ast.Expr) and isinstance(
+            C.body[0].value, ast.Constant)) else 0
+        C.body[at:at] = moved
+        C.bases = [b for b in C.bases
+                   if ast.unparse(b).split('.')[-1] != bname]
+        modules[bmod].body.remove(B)
+        # the import of the mix-in goes too
+        for st in list(modules[cmod].body):
+            if isinstance(st, ast.ImportFrom):
+                st.names = [a for a in st.names
+                            if (a.asname or a.name) != bname]
+                if not st.names:
+                    modules[cmod].body.remove(st)
+        ast.fix_missing_locations(modules[cmod])
+        done.append((bname, C.name, len(moved)))
+    return done
+
+
 def _classmethods_to_static(modules):
     """A ``@classmethod`` of a class that has no subclass in the package is
     a static method whose ``cls`` is the class itself."""
@@ -644,6 +735,41 @@ def _normalise_filter_loop(tree):
     for node in ast.walk(tree):
         if isinstance(node, ast.FunctionDef):
             node.body = fix(node.body, node)
+    ast.fix_missing_locations(tree)
+
+
+def _split_tuple_assign(tree):
+    """``a, b = (X, Y)`` with names on the left and names/constants on the
+    right (none of the targets among them) is ``a = X; b = Y``."""
+    def fix(stmts):
+        out = []
+        for st in stmts:
+            for fld in ('body', 'orelse', 'finalbody'):
+                v = getattr(st, fld, None)
+                if isinstance(v, list) and v and isinstance(v[0], ast.stmt):
+                    setattr(st, fld, fix(v))
+            if isinstance(st, ast.Try):
+                for h in st.handlers:
+                    h.body = fix(h.body)
+            if isinstance(st, ast.Assign) and len(st.targets) == 1 and \
+                    isinstance(st.targets[0], (ast.Tuple, ast.List)) and \
+                    isinstance(st.value, (ast.Tuple, ast.List)) and \
+                    len(st.targets[0].elts) == len(st.value.elts) and \
+                    all(isinstance(t, ast.Name) for t in st.targets[0].elts) \
+                    and all(isinstance(v, (ast.Name, ast.Constant))
+                            for v in st.value.elts):
+                tn = {t.id for t in st.targets[0].elts}
+                vn = {v.id for v in st.value.elts if isinstance(v, ast.Name)}
+                if not (tn & vn) and len(tn) == len(st.targets[0].elts):
+                    for t, v in zip(st.targets[0].elts, st.value.elts):
+                        out.append(ast.copy_location(ast.Assign(
+                            targets=[t], value=v), st))
+                    continue
+            out.append(st)
+        return out
+    for node in ast.walk(tree):
+        if isinstance(node, ast.FunctionDef):
+            node.body = fix(node.body)
     ast.fix_missing_locations(tree)
 
 
@@ -1115,16 +1241,20 @@ class Program:
             self.sources[mod] = src
             self._relfile = getattr(self, '_relfile', {})
             self._relfile[mod] = PKG + '/' + fn
-        _classmethods_to_static(self.modules)
-        for mod, tree in self.modules.items():
-            self._load_module(mod, tree, self._relfile[mod])
-        self.excluded.append('samples/')
         if anchors == 'default':
             anchors = os.path.join(os.path.dirname(os.path.dirname(
                 os.path.abspath(__file__))), 'anchors.json')
         canon = None
         if anchors and os.path.exists(anchors):
             canon = json.load(open(anchors))['functions']
+        self.flattened = []
+        if canon is not None:
+            self.flattened = _flatten_mixins(self.modules, {
+                q.split('.')[0] for q in canon if '.' in q})
+        _classmethods_to_static(self.modules)
+        for mod, tree in self.modules.items():
+            self._load_module(mod, tree, self._relfile[mod])
+        self.excluded.append('samples/')
         self.deextracted = []
         self._finish(canon)
         if canon is not None:
@@ -1164,10 +1294,13 @@ class Program:
         imps = {}
         globs = {}
         _inline_lock_decorators(tree)
+        from .deextract import inline_nested_defs
+        inline_nested_defs(tree)
         _normalise_kwonly(tree)
         _desugar_match(tree)
         _inline_simple_properties(tree)
         _hoist_walrus(tree)
+        _split_tuple_assign(tree)
         _normalise_sentinel_iter(tree)
         _normalise_filter_loop(tree)
         _normalise_literal_membership(tree)
@@ -1362,6 +1495,11 @@ class Program:
                 # it still answers to its class-qualified name
                 fobj.cls = m.split('.')[0]
                 fobj.is_static = True
+                c1 = self.classes.get(fobj.cls)
+                if c1 is not None and fobj.name not in c1.methods:
+                    # ``Cls.f(...)`` keeps resolving (a facade
+                    # ``f = staticmethod(f)`` in the class, or none at all)
+                    c1.methods[fobj.name] = fobj
             self.funcs[m] = fobj
             # call sites and syntactic matches see the canonical method name
             # when the new name is used for nothing else
